@@ -292,6 +292,12 @@ def m_fmt_write_str(it, f, s):
 @model(r"std::fmt::Formatter::<'_>::write_fmt")
 def m_fmt_write_fmt(it, f, a):
     deref_all(f).out.extend(deref_all(a).chars); return OK([])
+@model(r"<std::string::String as std::fmt::Write>::(write_fmt|write_str)")
+def m_string_write_fmt(it, s, a):
+    deref_all(s).chars.extend(deref_all(a).chars); return OK([])
+@model(r"<std::string::String as std::fmt::Write>::write_char")
+def m_string_write_char(it, s, c):
+    deref_all(s).chars.append(c); return OK([])
 @model(r"<(str|std::string::String) as std::fmt::Display>::fmt")
 def m_str_display_fmt(it, s, f):
     deref_all(f).out.extend(deref_all(s).chars); return OK([])
@@ -432,7 +438,6 @@ reg(r'<%s as std::cmp::PartialEq(?:<%s>)?>::ne' % (_STR, _STR), lambda it, a, b:
 reg(r"<std::borrow::Cow<'_, str> as std::cmp::PartialEq<&str>>::eq", lambda it, a, b: str_eq(it, _sv(a), _sv(b)))
 reg(r'<std::string::String as std::ops::Deref(Mut)?>::deref(_mut)?', lambda it, s: s)
 reg(r'std::string::String::(as_str|as_mut_str)', lambda it, s: s)
-reg(r'core::str::<impl str>::(as_bytes)', None)
 reg(r'std::string::String::new', lambda it: SStr([]))
 reg(r'std::string::String::with_capacity', lambda it, n: SStr([]))
 reg(r'<std::string::String as std::default::Default>::default', lambda it: SStr([]))
@@ -475,14 +480,24 @@ def m_char_indices(it, s):
     for c in deref_all(s).chars:
         out.append([off, c]); off += utf8_len_of(it, c)
     return PyIter(out)
+@model(r'std::string::String::into_bytes')
+def m_into_bytes(it, s): return str_bytes(it, deref_all(s))
+@model(r'core::str::<impl str>::as_bytes')
+def m_as_bytes(it, s): return Ref(Box_(str_bytes(it, deref_all(s))))
 @model(r'core::str::<impl str>::bytes')
 def m_str_bytes(it, s): return PyIter(str_bytes(it, deref_all(s)))
 def str_bytes(it, s):
+    """UTF-8 encoding; a symbolic code point forks on its length class and is encoded arithmetically"""
     out = []
     for c in s.chars:
-        if isinstance(c, int): out.extend(chr(c).encode('utf-8'))
+        if isinstance(c, int): out.extend(chr(c).encode('utf-8', 'surrogatepass'))
         elif B(it, c < 0x80): out.append(c)
-        else: raise Unsupported('bytes of symbolic non-ASCII char')
+        elif B(it, c < 0x800):
+            q, r = it.ctx.divmod(c, 64); out += [0xC0 + q, 0x80 + r]
+        elif B(it, c < 0x10000):
+            q, r = it.ctx.divmod(c, 64); q2, r2 = it.ctx.divmod(q, 64); out += [0xE0 + q2, 0x80 + r2, 0x80 + r]
+        else:
+            q, r = it.ctx.divmod(c, 64); q2, r2 = it.ctx.divmod(q, 64); q3, r3 = it.ctx.divmod(q2, 64); out += [0xF0 + q3, 0x80 + r3, 0x80 + r2, 0x80 + r]
     return out
 def byte_offset_to_index(it, s, off):
     """char index for a byte offset (must be a boundary)"""
